@@ -29,12 +29,78 @@ def tokens(e):
         return ["c", e[1]]
     if h == "v":
         return ["v", e[1], str(e[2])]
-    if h == "^":
-        return ["^"] + tokens(e[1]) + [str(e[2])]
+    if h in ("^", "relun"):
+        return [h] + tokens(e[1]) + [str(e[2])]
     out = [h]
     for a in e[1:]:
         out += tokens(a)
     return out
+
+
+def lower(e, layers):
+    """library nodes -> core nodes (what the model and sympy see):
+    ["lin", lid, j] -> sum_i W[j][i]*input_i + b[j];  ["sinus", a] -> sin a;
+    ["adapt", fn, a0, scaling, a] -> fn(scaling*a0*a)  (fn = "sin" | "tanh" | "relun:<n>")"""
+    h = e[0]
+    if h in ("c", "v"):
+        return e
+    if h == "lin":
+        L = layers[e[1]]
+        acc = ["c", L["b"][e[2]]]
+        for w, inp in zip(L["W"][e[2]], L["inputs"]):
+            acc = ["+", acc, ["*", ["c", w], lower(inp, layers)]]
+        return acc
+    if h == "sinus":
+        return ["sin", lower(e[1], layers)]
+    if h == "adapt":
+        arg = ["*", C(Fraction(e[2]) * Fraction(e[3])), lower(e[4], layers)]
+        return ["relun", arg, int(e[1].split(":")[1])] if e[1].startswith("relun") else [e[1], arg]
+    return [h] + [lower(a, layers) if isinstance(a, list) else a for a in e[1:]]
+
+
+def lowered(case):
+    """the case with every program lowered to core nodes"""
+    L = case.get("layers")
+    if not L:
+        return case
+    c = dict(case)
+    c["out"] = [[lower(e, L) for e in row] for row in case["out"]] if case["op"] == "mdiv" else [lower(e, L) for e in case["out"]]
+    c["extra"] = [lower(e, L) for e in case["extra"]]
+    return c
+
+
+def exact_eval(e, env):
+    """exact value (Fraction) of a polynomial / relun program at a row; None if not rational"""
+    h = e[0]
+    if h == "c":
+        return Fraction(e[1])
+    if h == "v":
+        return env[(e[1], e[2])]
+    a = exact_eval(e[1], env)
+    if a is None:
+        return None
+    if h == "neg":
+        return -a
+    if h == "^":
+        return a ** e[2]
+    if h == "relun":
+        return a ** e[2] if a > 0 else Fraction(0)
+    if h in ("+", "-", "*", "/"):
+        b = exact_eval(e[2], env)
+        if b is None or (h == "/" and b == 0):
+            return None
+        return a + b if h == "+" else a - b if h == "-" else a * b if h == "*" else a / b
+    return None
+
+
+def relun_args(e, acc):
+    if e[0] == "relun":
+        acc.append(e[1])
+    if e[0] not in ("c", "v"):
+        for a in e[1:]:
+            if isinstance(a, list):
+                relun_args(a, acc)
+    return acc
 
 
 def depth(e):
@@ -331,6 +397,111 @@ def gen_degenerate(rng, op):
     return None
 
 
+ACTS = ["relun:2", "relun:3", "relun:3", "tanh", "sinus", "adapt:tanh", "adapt:sin", "adapt:relun:2", "adapt:relun:3"]
+
+
+def act_node(rng, kind, z):
+    if kind.startswith("relun"):
+        return ["relun", z, int(kind.split(":")[1])]
+    if kind == "tanh":
+        return ["tanh", z]
+    if kind == "sinus":
+        return ["sinus", z]
+    fn = kind.split(":", 1)[1]
+    return ["adapt", fn, q(Fraction(rng.choice([1, 2, 3]), 2)), q(Fraction(rng.choice([1, 2, 4]), 2)), z]
+
+
+def gen_network(rng, op):
+    """programs built from the library's own modules and autograd Functions (ReLUn, Sinus, AdaptiveActivationFunction,
+    the DeepONet trunk layer `linear`, torch.nn.Linear) in which an intermediate is REUSED through several branches:
+    residual blocks act(z) +/- z, z*act(z), act(z) + x_i, two heads on one hidden layer."""
+    for _ in range(200):
+        case = gen_case(rng, op)
+        if case.get("malformed"):
+            continue
+        vars_ = case["vars"]
+        coords = [(n, i) for n, d in vars_ for i in range(d)]
+        need = len(case["out"][0]) if op == "mdiv" else len(case["out"])
+        nrows = len(case["out"]) if op == "mdiv" else 1
+        if len(coords) > 4 or need * nrows > 4:
+            continue                          # keeps the symbolic oracle fast
+        k = rng.choice([2, 2, 3])
+        w = lambda: q(Fraction(rng.choice([-4, -3, -2, -1, 1, 2, 3, 4]), 2))
+        layers = [dict(kind=rng.choice(["nn", "trunk"]), W=[[w() for _ in coords] for _ in range(k)],
+                       b=[q(Fraction(rng.randint(-4, 4), 4)) for _ in range(k)], inputs=[["v", n, i] for n, i in coords])]
+        blocks = []
+        for j in range(k):
+            z = ["lin", 0, j]
+            a = act_node(rng, rng.choice(ACTS), z)
+            form = rng.choice(["a+z", "z+a", "a-z", "a*z", "a+x", "a"])
+            if form == "a+z":
+                blocks.append(["+", a, z])
+            elif form == "z+a":
+                blocks.append(["+", z, a])
+            elif form == "a-z":
+                blocks.append(["-", a, z])
+            elif form == "a*z":
+                blocks.append(["*", a, z])
+            elif form == "a+x":
+                n, i = rng.choice(coords)
+                blocks.append(["+", a, ["v", n, i]])
+            else:
+                blocks.append(a)
+        layers.append(dict(kind=rng.choice(["nn", "trunk"]), W=[[w() for _ in range(k)] for _ in range(need * nrows)],
+                           b=[q(Fraction(rng.randint(-4, 4), 4)) for _ in range(need * nrows)], inputs=blocks))
+        heads = [["lin", 1, j] for j in range(need * nrows)]
+        if rng.random() < 0.3:               # a second skip connection around the whole block
+            n, i = rng.choice(coords)
+            heads = [["+", h, ["v", n, i]] for h in heads]
+        case["out"] = [heads[r * need:(r + 1) * need] for r in range(nrows)] if op == "mdiv" else heads
+        case["layers"] = layers
+        case["share"] = True
+        case["kinds"] = ["network"]
+        case["network"] = True
+        case["poly"] = False
+        for key in ("outmode", "pregrad"):
+            case.pop(key, None)
+        # keep every ReLU argument away from the kink (|z| >= 1/8) at every row
+        args = []
+        for e in flat_out(lowered(case)):
+            relun_args(e, args)
+        ok = True
+        for r in case["rows"]:
+            env = {c: Fraction(v) for c, v in zip(coords, r)}
+            for a in args:
+                v = exact_eval(a, env)
+                if v is None or abs(v) < Fraction(1, 8):
+                    ok = False
+        if ok:
+            return case
+    return None
+
+
+def add_reuse(rng, case):
+    """regular programs: make a non-trivial sub-program occur in two branches and evaluate it ONCE (shared tensor)"""
+    def subs(e, acc):
+        if e[0] not in ("c", "v"):
+            acc.append(e)
+            for a in e[1:]:
+                if isinstance(a, list):
+                    subs(a, acc)
+        return acc
+    def one(e):
+        cands = subs(e, [])
+        if not cands:
+            return e
+        s_ = rng.choice(cands)
+        wrap = rng.choice([lambda t: t, lambda t: ["sin", t], lambda t: ["tanh", t], lambda t: ["*", t, t]])
+        return [rng.choice(["+", "-"]), e, ["*", rnd_const(rng), wrap(s_)]]
+    if case["op"] == "mdiv":
+        case["out"] = [[one(e) for e in row] for row in case["out"]]
+    else:
+        case["out"] = [one(e) for e in case["out"]]
+    case["share"] = True
+    case["reuse"] = True
+    return case
+
+
 def flat_out(case):
     return [e for row in case["out"] for e in row] if case["op"] == "mdiv" else case["out"]
 
@@ -339,11 +510,66 @@ def flat_out(case):
 # implementation
 
 def torch_eval(torch, e, X):
+    """X maps coordinates to tensors; X["__memo__"] (a dict) makes identical sub-programs ONE tensor that is reused
+    in every place it occurs (skip connections), X["__ctx__"] carries layers / dtype / the library"""
+    memo = X.get("__memo__")
+    if memo is None or e[0] in ("c", "v"):
+        return _torch_eval(torch, e, X)
+    import json as _json
+    key = _json.dumps(e)
+    if key not in memo:
+        memo[key] = _torch_eval(torch, e, X)
+    return memo[key]
+
+
+def _as_tensor(torch, a, X):
+    if torch.is_tensor(a):
+        return a
+    ctx = X["__ctx__"]
+    return torch.full((*ctx["batch"], 1), float(a), dtype=ctx["dt"])
+
+
+def _torch_eval(torch, e, X):
     h = e[0]
     if h == "c":
         return float(Fraction(e[1]))
     if h == "v":
         return X[(e[1], e[2])]
+    if h == "lin":
+        ctx = X["__ctx__"]
+        lay = ctx["done"].get(e[1])
+        if lay is None:
+            L = ctx["layers"][e[1]]
+            inp = torch.cat([_as_tensor(torch, torch_eval(torch, a, X), X) for a in L["inputs"]], dim=-1)
+            W = torch.tensor([[float(Fraction(w)) for w in r] for r in L["W"]], dtype=ctx["dt"], requires_grad=True)
+            b = torch.tensor([float(Fraction(w)) for w in L["b"]], dtype=ctx["dt"], requires_grad=True)
+            if L["kind"] == "trunk" and len(ctx["batch"]) >= 1:          # the DeepONet trunk layer (custom autograd Function `linear`)
+                from torchphysics.models.deeponet.layers import TrunkLinear
+                mod = TrunkLinear(len(L["W"][0]), len(L["W"])).to(ctx["dt"])
+                with torch.no_grad():
+                    mod.weight.copy_(W)
+                    mod.bias.copy_(b)
+                lay = mod(inp.unsqueeze(0))[0]
+            else:
+                mod = torch.nn.Linear(len(L["W"][0]), len(L["W"])).to(ctx["dt"])
+                with torch.no_grad():
+                    mod.weight.copy_(W)
+                    mod.bias.copy_(b)
+                lay = mod(inp)
+            ctx["done"][e[1]] = lay
+        return lay[..., e[2]:e[2] + 1]
+    if h in ("relun", "sinus", "adapt"):
+        tp = X["__ctx__"]["tp"]
+        if h == "relun":
+            a = _as_tensor(torch, torch_eval(torch, e[1], X), X)
+            return tp.models.ReLUn(e[2])(a)
+        if h == "sinus":
+            return tp.models.Sinus()(_as_tensor(torch, torch_eval(torch, e[1], X), X))
+        fn = e[1]
+        inner = tp.models.ReLUn(int(fn.split(":")[1])) if fn.startswith("relun") else (tp.models.Sinus() if fn == "sin" else torch.nn.Tanh())
+        mod = tp.models.AdaptiveActivationFunction(inner, inital_a=float(Fraction(e[2])), scaling=float(Fraction(e[3])))
+        mod = mod.to(X["__ctx__"]["dt"])
+        return mod(_as_tensor(torch, torch_eval(torch, e[4], X), X))
     a = torch_eval(torch, e[1], X)
     if h == "neg":
         return -a
@@ -388,6 +614,8 @@ def build_inputs(torch, case, rows=None):
         for i in range(d):
             X[(n, i)] = cols[i]
         off += d
+    X["__ctx__"] = dict(layers=case.get("layers", []), done={}, dt=dt, batch=batch, tp=common.use_repo())
+    X["__memo__"] = {} if case.get("share") else None
     return T, X, batch, dt
 
 
@@ -464,6 +692,8 @@ def run_impl(case, rows=None):
             out = make_output(torch, case["out"], T, X, case, batch, dt)
         dv = [T[case["vars"][k][0]] for k in case["deriv"]]
         f = getattr(ops, IMPL_NAME[op])
+        before = {n: t.detach().clone() for n, t in T.items()}
+        before["<model_out>"] = out.detach().clone()
         if op in ("nd", "conv"):
             ex = assemble(torch, [torch_eval(torch, e, X) for e in case["extra"]], batch, dt, 0)
             if not case.get("extra_graph"):
@@ -473,6 +703,12 @@ def run_impl(case, rows=None):
             res = f(out, *dv, grad=ops.grad(out, dv[0]))
         else:
             res = f(out, *dv)
+        mutated = [n for n, t in before.items() if not torch.equal(t, (out if n == "<model_out>" else T[n]).detach())]
+        second = None
+        if rows is None and not case.get("pregrad") and op not in ("nd", "conv"):
+            res2 = f(out, *dv)               # a second use of the same graph must give the same answer
+            if res2.shape != res.shape or not torch.allclose(res2, res, rtol=1e-6, atol=1e-9, equal_nan=True):
+                second = "second call on the same tensors returned a different result"
     except Exception as e:  # noqa
         return dict(error=err_kind(e), message=f"{type(e).__name__}: {str(e)[:200]}")
     nb = len(batch)
@@ -480,7 +716,7 @@ def run_impl(case, rows=None):
         return dict(shape=list(res.shape), values=None, dtype=str(res.dtype), badbatch=True)
     per = list(res.shape[nb:])
     vals = res.detach().to(torch.float64).reshape(math.prod(batch), -1).tolist()
-    info = dict(shape=per, values=vals, dtype=str(res.dtype))
+    info = dict(shape=per, values=vals, dtype=str(res.dtype), mutated=mutated, second=second)
     if op in ("lap", "grad", "partial") and rows is None:
         # measured for the evidence: is the whole batch stationary w.r.t. some derivative variable / does u vanish on it?
         try:
@@ -512,18 +748,39 @@ def sym_expr(sp, e, S):
         return -a
     if h == "^":
         return a ** e[2]
+    if h == "relun":
+        # away from the kink relu(a)^n = step(a) * a^n with a locally constant step: one parameter symbol per distinct
+        # argument, set per row from the exact sign of the argument (falls back to Piecewise for non-rational arguments)
+        reg = S.get("__relu__")
+        if reg is not None and is_poly_or_relun(e[1]):
+            import json as _json
+            key = _json.dumps(e[1])
+            if key not in reg:
+                reg[key] = (e[1], sp.Symbol("step_%d" % len(reg), real=True))
+            return reg[key][1] * a ** e[2]
+        return sp.Piecewise((a ** e[2], a > 0), (0, True))
     if h in ("sin", "cos", "exp", "tanh"):
         return getattr(sp, h)(a)
     b = sym_expr(sp, e[2], S)
     return a + b if h == "+" else a - b if h == "-" else a * b if h == "*" else a / b
 
 
+def is_poly_or_relun(e):
+    if e[0] in ("c", "v"):
+        return True
+    if e[0] in ("sin", "cos", "exp", "tanh", "/"):
+        return False
+    return all(is_poly_or_relun(a) for a in e[1:] if isinstance(a, list))
+
+
 def run_oracle(case):
     """the textbook differential expression, by sympy, evaluated in float64 at every row.
     returns (per-row shape, [[values] per row])"""
     import sympy as sp
+    case = lowered(case)
     coords = [(n, i) for n, d in case["vars"] for i in range(d)]
     S = {c: sp.Symbol(f"{c[0]}_{c[1]}", real=True) for c in coords}
+    S["__relu__"] = {}
     op = case["op"]
     out = [sym_expr(sp, e, S) for e in flat_out(case)]
     extra = [sym_expr(sp, e, S) for e in case["extra"]]
@@ -560,10 +817,13 @@ def run_oracle(case):
         m = len(case["out"])
         nn = len(ys)
         res, shape = [sum(d(out[i * nn + j], ys[j]) for j in range(nn)) for i in range(m)], [m]
-    f = sp.lambdify([S[c] for c in coords], res, modules="math", cse=False)
+    steps = list(S["__relu__"].values())
+    f = sp.lambdify([S[c] for c in coords] + [sy for _, sy in steps], res, modules="math", cse=False)
     vals = []
     for r in case["rows"]:
-        v = f(*[float(Fraction(x)) for x in r])
+        env = {c: Fraction(x) for c, x in zip(coords, r)}
+        sv = [1.0 if exact_eval(arg, env) > 0 else 0.0 for arg, _ in steps]
+        v = f(*([float(Fraction(x)) for x in r] + sv))
         vals.append([float(x) for x in v])
     return shape, vals
 
@@ -572,6 +832,7 @@ def run_oracle(case):
 # model (driver)
 
 def driver_line(case, form, num):
+    case = lowered(case)
     op = case["op"]
     t = [op, form, num, str(len(case["vars"]))]
     for n, d in case["vars"]:
@@ -659,6 +920,10 @@ def judge(rep, case, impl, oracle, models):
         rep.fail(f"{describe(case)} raised instead of returning the derivative: {impl['message']}", case,
                  detail=dict(kinds=case["kinds"]))
         return
+    if impl.get("mutated"):
+        rep.fail(f"{describe(case)}: the call changed the values of its input tensors {impl['mutated']}", case)
+    if impl.get("second"):
+        rep.fail(f"{describe(case)}: {impl['second']}", case)
     oshape, ovals = oracle if oracle is not None else (impl["shape"], [])
     if impl.get("badbatch") or impl["shape"] != oshape:
         rep.fail(f"{describe(case)}: result shape {impl['shape']} (batch part included if wrong), expected batch {case['batch']} + {oshape}", case)
@@ -735,20 +1000,31 @@ def nontrivial(case):
     outs = flat_out(case)
     focus = {(case["vars"][k][0], i) for k in case["deriv"] for i in range(case["vars"][k][1])}
     dep = any(coords_in(e) & focus for e in outs)
+    outs = flat_out(lowered(case))
     deep = max(depth(e) for e in outs) >= 2 or case.get("degenerate") in ("leaf", "slice")
     return (not case.get("malformed")) and dep and deep and len(case["rows"]) >= 2
 
 
 def gen_cases(ctx):
     rng = ctx.rng
-    per_op = ctx.scale(130, 1600)
+    per_op = ctx.scale(115, 1500)
     cases = [c for c in CORPUS]
     for op in OPS:
         for _ in range(per_op):
-            cases.append(gen_case(rng, op, thorough=not ctx.quick))
+            c = gen_case(rng, op, thorough=not ctx.quick)
+            if not c.get("malformed") and rng.random() < 0.15:
+                c = add_reuse(rng, c)
+            elif rng.random() < 0.5:
+                c["share"] = True
+            cases.append(c)
     for op in OPS:
         for _ in range(ctx.scale(30, 300)):
             c = gen_degenerate(rng, op)
+            if c is not None:
+                cases.append(c)
+    for op in OPS:
+        for _ in range(ctx.scale(10, 120)):
+            c = gen_network(rng, op)
             if c is not None:
                 cases.append(c)
     return cases
@@ -817,6 +1093,17 @@ CORPUS += [
          special_rows=[0, 1], pregrad=True),
     dict(op="lap", vars=[["x", 2]], out=[["exp", ["neg", ["+", ["^", V("x", 0), 2], ["^", V("x", 1), 2]]]]], deriv=[0], extra=[], batch=[2, 1],
          rows=[["0", "0"], ["1/2", "-1/4"]], dtype="f64", style=0, kinds=["even"], poly=False, pointmode="on-set-mixed", special_rows=[0]),
+    # residual block with the library's ReLUn on a reused intermediate: u = 3/2 * (ReLU^3(z) + z), z = 2x - y + 1/2
+    # (a backward that edits the incoming gradient in place corrupts the other branch of the sum)
+    dict(op="grad", vars=[["x", 1], ["y", 1]], deriv=[0, 1], extra=[], batch=[3], dtype="f64", style=0, kinds=["network"], poly=False,
+         rows=[["1", "1/2"], ["-1", "1/4"], ["3/4", "-1/2"]], share=True, network=True,
+         layers=[dict(kind="nn", W=[["2", "-1"]], b=["1/2"], inputs=[V("x", 0), V("y", 0)]),
+                 dict(kind="trunk", W=[["3/2"]], b=["0"], inputs=[["+", ["relun", ["lin", 0, 0], 3], ["lin", 0, 0]]])],
+         out=[["lin", 1, 0]]),
+    dict(op="lap", vars=[["x", 2]], deriv=[0], extra=[], batch=[2], dtype="f32", style=0, kinds=["network"], poly=False,
+         rows=[["1", "1/2"], ["-1", "1/4"]], share=True, network=True,
+         layers=[dict(kind="trunk", W=[["1", "-2"], ["1/2", "1"]], b=["1/4", "-1/4"], inputs=[V("x", 0), V("x", 1)])],
+         out=[["+", ["-", ["adapt", "relun:2", "1/2", "2", ["lin", 0, 0]], ["lin", 0, 0]], ["*", ["tanh", ["lin", 0, 1]], ["lin", 0, 1]]]]),
     # a single point without batch axis
     dict(op="jac", vars=[["x", 2]], out=[["*", V("x", 0), V("x", 1)], ["sin", V("x", 0)]], deriv=[0], extra=[], batch=[],
          rows=[["3/2", "-5/4"]], dtype="f64", style=0, kinds=["general"] * 2, poly=False),
@@ -825,6 +1112,7 @@ CORPUS += [
 
 def model_requests(case, rng_choice):
     reqs = [("row", "flt")]
+    case = lowered(case)
     if case["poly"] and all(is_poly(e) for e in flat_out(case) + case["extra"]):
         reqs.append(("row", "rat"))
     if (case["op"] in BATCH_FORM and not case.get("malformed") and rng_choice < 0.4 and len(case["rows"]) <= 4
@@ -840,7 +1128,9 @@ def run(ctx, rep, cases=None, use_driver=True):
                 "0-3 batch axes for every operator, float32 and float64, four ways of slicing/assembling the tensors; "
                 "points are dyadic k/8 in [-2,2]; 30% of the programs are built even/odd about a centre in one derivative variable and "
                 "evaluated with all / some / no rows on that set (stationary points, zeros of u), further batches with zero "
-                "coordinates, all rows at the origin, identical rows; partial up to order 5; `grad=` keyword; non-trivial = some output depends on a derivative variable, depth >= 2, >= 2 rows; "
+                "coordinates, all rows at the origin, identical rows; partial up to order 5; `grad=` keyword; networks built from the library's modules and autograd Functions (ReLUn, Sinus, "
+                "AdaptiveActivationFunction, TrunkLinear/`linear`, nn.Linear) with reused intermediates (residual blocks), 20% of the "
+                "regular programs with a sub-program shared by two branches; every call repeated (same result, inputs unchanged); non-trivial = some output depends on a derivative variable, depth >= 2, >= 2 rows; "
                 "distinct = distinct (operator, program, variables, batch, points)")
     cases = cases if cases is not None else gen_cases(ctx)
     impls, oracles, lines, owners = [], [], [], []
@@ -872,6 +1162,19 @@ def run(ctx, rep, cases=None, use_driver=True):
             rep.count("model-channel:%s-%s" % k)
         if case.get("pregrad"):
             rep.count("laplacian-with-precomputed-grad")
+        if case.get("network"):
+            rep.count("network(library modules, reused intermediates)")
+            for L in case["layers"]:
+                rep.count("lib:linear-" + L["kind"])
+            import json as _json
+            txt = _json.dumps(case["out"])
+            for tag in ("relun", "sinus", "adapt", "tanh"):
+                if '"%s' % tag in txt:
+                    rep.count("lib:" + tag)
+        if case.get("reuse"):
+            rep.count("sub-program reused in two branches (one shared tensor)")
+        if case.get("share"):
+            rep.count("shared-evaluation")
         rep.count("points:" + case.get("pointmode", "corpus"))
         rep.count("nvars-total:%d" % len(case["vars"]))
         rep.count("max-dim:%d" % max(d for _, d in case["vars"]))
@@ -894,7 +1197,8 @@ def run(ctx, rep, cases=None, use_driver=True):
         if case.get("degenerate"):
             rep.count("degenerate:" + case["degenerate"])
         rep.case(dict(op=op, vars=case["vars"], out=case["out"], deriv=case["deriv"], batch=case["batch"], rows=case["rows"],
-                      dtype=case["dtype"], extra=case["extra"], outmode=case.get("outmode"), inmode=case.get("inmode")),
+                      dtype=case["dtype"], extra=case["extra"], outmode=case.get("outmode"), inmode=case.get("inmode"),
+                      layers=case.get("layers"), share=case.get("share")),
                  nontrivial(case),
                  sample=dict(case={k: case[k] for k in ("op", "vars", "out", "deriv", "extra", "batch", "dtype")},
                              rows=case["rows"][:2], implementation=(impl.get("values") or [impl.get("error")])[:2],
